@@ -60,6 +60,12 @@ def gen_single_excitation(rng, kind, cls, axi, nonlinear=False):
         m2 = B.prop("blockprops", name="m2", mu_x=100.0, mu_y=100.0)
         fixA = B.prop("bdryprops", name="fixA", type=0, A_0=(rng.choice([1e-3, -2e-3]) if cls == "dirichlet" else 0.0))
         fixB = B.prop("bdryprops", name="fixB", type=0, A_0=0.0)
+        if cls == "dirichlet" and not axi and rng.random() < 0.7:
+            # position-dependent prescribed potential A0 + A1 x + A2 y (cartesian) or A0 + A1 r + A2 theta (polar; the file
+            # keyword only - no Lua command sets it): coordinates are in the DECLARED unit, so the boundary values - and with them
+            # the whole solution - are the same numbers in every unit
+            p["bdryprops"][fixA - 1].update(A_1=rng.choice([2e-4, -5e-4]), A_2=rng.choice([1e-4, 3e-4]))
+            p["coordinates"] = rng.choice(["polar", "cartesian", "polar"])
         src = None
         cond = B.prop("circuits", name="cond", type=1, amps_re=(rng.choice([10.0, -4.0]) if cls == "circuit" else 0.0))
     sides = dict(l=dict(bdry=fixA), r=dict(bdry=fixB), b={}, t={})
@@ -98,7 +104,8 @@ def gen_single_excitation(rng, kind, cls, axi, nonlinear=False):
     B.rect(ax0, ay0, ax1, ay1)
     B.label((ax0 + ax1) / 2, (ay0 + ay1) / 2, m2, maxarea=d / 2)
     p["bar"] = ((ax0 + ax1) / 2, (ay0 + ay1) / 2)
-    p["features"] = [kind, cls, "axi" if axi else "planar"] + (["nonlinear"] if nonlinear else [])
+    p["features"] = [kind, cls, "axi" if axi else "planar"] + (["nonlinear"] if nonlinear else []) + (
+        ["A(x,y)-" + p["coordinates"]] if "coordinates" in p else [])
     p["probe"] = [(x0 + W * 0.2, y0 + H * 0.3), (x0 + W * 0.8, y0 + H * 0.7), (x0 + W * 0.5, y0 + H * 0.15)]
     p["lab"] = (x0 + W * 0.125, y0 + H * 0.125)
     p["inner"] = ((bx0 + bx1) / 2, (by0 + by1) / 2)
